@@ -100,6 +100,19 @@ func (w *World) VerifyFunc(key string) (vc *VC, err error) {
 	}
 	fr.params = args
 	fname := relName(fn)
+	// thin default contract: pointer parameters are non-nil unless the body
+	// itself tests them against nil; data invariants of parameter types hold
+	for i, p := range fn.Params {
+		if args[i].T == nil {
+			continue
+		}
+		if isPtrLike(p.Type()) && !nilTolerant(fn, i) && !(fc != nil && strings.Contains(" "+fc.Opts["nilable"]+" ", " "+p.Name()+" ")) {
+			vc.assume(True, Not(Eq(args[i].T, IntLit(0))))
+		}
+		for _, t := range w.dataInvTerms(args[i], fr.entry, vc) {
+			vc.assume(True, t)
+		}
+	}
 	// global invariants are assumed at entry
 	for _, gi := range w.cons.GInvs {
 		env := &Env{w: w, pkg: gi.Pkg, vars: map[string]TV{}, used: vc.used, heap: fr.entry.get, old: fr.entry.get}
@@ -460,4 +473,57 @@ func (w *World) VerifyLemma(lm *Lemma) (vc *VC, err error) {
 		o.Src = lm.Src
 	}
 	return vc, nil
+}
+
+func isPtrLike(t types.Type) bool {
+	switch types.Unalias(t).Underlying().(type) {
+	case *types.Pointer:
+		return true
+	}
+	return false
+}
+
+// nilTolerant: the function compares parameter i with nil somewhere.
+func nilTolerant(fn *ssa.Function, i int) bool {
+	if i >= len(fn.Params) {
+		return false
+	}
+	p := fn.Params[i]
+	for _, ref := range *p.Referrers() {
+		if bo, ok := ref.(*ssa.BinOp); ok {
+			if c, ok := bo.Y.(*ssa.Const); ok && c.Value == nil {
+				return true
+			}
+			if c, ok := bo.X.(*ssa.Const); ok && c.Value == nil {
+				return true
+			}
+		}
+	}
+	return false
+}
+
+// dataInvTerms instantiates the data invariants declared for the type of v.
+func (w *World) dataInvTerms(v *Val, h *Heap, vc *VC) []*Term {
+	if v.T == nil {
+		return nil
+	}
+	pt, ok := types.Unalias(v.Ty).Underlying().(*types.Pointer)
+	if !ok {
+		return nil
+	}
+	var out []*Term
+	for _, di := range w.cons.DInvs {
+		t, err := w.resolveType(di.Type, di.Pkg)
+		if err != nil || !types.Identical(t, pt.Elem()) {
+			continue
+		}
+		env := &Env{w: w, pkg: di.Pkg, vars: map[string]TV{di.Var: {T: v.T, Ty: v.Ty}}, used: vc.used, heap: h.get, old: h.get}
+		tm, err := env.CompileBool(di.E)
+		if err != nil {
+			vc.errorf("%s:%d: datainv: %v", di.File, di.Line, err)
+			continue
+		}
+		out = append(out, Implies(Not(Eq(v.T, IntLit(0))), tm))
+	}
+	return out
 }
